@@ -194,6 +194,22 @@ def bind(pat, val, byref):
     return 'let %s = %s;' % (pat, ('&' + val) if byref else val)
 
 
+def _strip_line_comments(text, code, a, b):
+    """text[a:b] without `// ...` comments (the generated code joins lines)"""
+    out = []
+    i = a
+    while i < b:
+        if text.startswith('//', i) and code[i] == ' ':
+            ls = text.rfind('\n', 0, i) + 1
+            if text[ls:i].count('"') % 2 == 0:
+                j = text.find('\n', i)
+                i = b if j < 0 or j > b else j
+                continue
+        out.append(text[i])
+        i += 1
+    return ''.join(out)
+
+
 def desugar(text, vec_type=None):
     """returns (new_text, [descriptions])"""
     notes = []
@@ -241,7 +257,7 @@ def desugar(text, vec_type=None):
             stages.insert(0, (sname, c[0][0], c[1]))
             end = d
         src_start = chain_start(code, end)
-        src = text[src_start:end].strip()
+        src = _strip_line_comments(text, code, src_start, end).strip()
         if not src:
             raise R11Error('empty iterator source before .%s' % name)
         it, more = 'r11_it%d' % N, 'r11_more%d' % N
